@@ -279,7 +279,8 @@ Record cfrac := mkC { cf : frac;
                       cf_n : N;                                  (* IDsTotal (with the sentinel) *)
                       cf_tbl : PositiveMap.t (id * body);        (* LID -> (ID, document): MID/RID blocks *)
                       cf_act : PositiveMap.t body;               (* specification side only: ID -> document *)
-                      cf_phys : phys }.
+                      cf_phys : phys;
+                      cf_fault : bool }.    (* fault injection: every Fetch of this fraction panics (false in compile) *)
 
 Definition table_of (f : frac) : list (id * body) := sentinel :: EntSort.sort (f_docs f).
 Definition blocks_of (f : frac) : list (list (id * body)) := split_blocks (f_split f) (f_docs f).
@@ -299,8 +300,8 @@ Definition phys_of (f : frac) : phys :=
 Definition compile (f : frac) : cfrac :=
   if f_sealed f
   then let l := table_of f in
-       mkC f (N.of_nat (length l)) (build_tbl l 0 (PositiveMap.empty _)) (PositiveMap.empty _) (phys_of f)
-  else mkC f 0 (PositiveMap.empty _) (build_act (f_docs f)) (phys_of f).
+       mkC f (N.of_nat (length l)) (build_tbl l 0 (PositiveMap.empty _)) (PositiveMap.empty _) (phys_of f) false
+  else mkC f 0 (PositiveMap.empty _) (build_act (f_docs f)) (phys_of f) false.
 
 Definition tbl_get (c : cfrac) (lid : N) : option (id * body) := PositiveMap.find (ikey lid) (cf_tbl c).
 Definition tbl_id (c : cfrac) (lid : N) : res id :=
@@ -429,6 +430,7 @@ Definition active_pos_v0 (k : N) (apos : PositiveMap.t N) (x : id) : N :=
 (* DataProvider.Fetch of one fraction: GetDocPos, then processor.IndexFetch *)
 Definition frac_fetch_gen (guard : bool) (g : cfg) (c : cfrac) (ids : list id) : res (list (option body)) :=
   let ph := cf_phys c in
+  if cf_fault c then Panic else
   if f_sealed (cf c)
   then match find_lids_gen guard g c None 1 ids with
        | Ok lids =>
@@ -586,6 +588,18 @@ Definition stream_of (ids : list idsrc) (b : bres) : sres :=
 
 Definition stream_gen (guard v0 : bool) (g : cfg) (fs : list frac) (ids : list idsrc) : sres :=
   stream_of ids (batches_gen guard v0 g (map compile fs) ids).
+
+(* fault injection (correspondence cases only): a fraction whose Fetch panics on entry (the harness arms the
+   schedule point "fetch.start" of activeDataProvider.Fetch), a fraction whose docs file cannot be read *)
+Definition poison (c : cfrac) : cfrac :=
+  mkC (cf c) (cf_n c) (cf_tbl c) (cf_act c) (cf_phys c) true.
+Definition damage (c : cfrac) : cfrac :=
+  let ph := cf_phys c in
+  mkC (cf c) (cf_n c) (cf_tbl c) (cf_act c) (mkP (p_apos ph) (p_ptab ph) (p_boffs ph) []) (cf_fault c).
+Definition compile_faulty (panic_active : bool) (damaged : list N) (f : frac) : cfrac :=
+  let c := compile f in
+  let c := if panic_active && negb (f_sealed f) then poison c else c in
+  if existsb (N.eqb (f_name f)) damaged then damage c else c.
 
 (* the code as it is *)
 Definition find_lids := find_lids_gen true.
